@@ -126,3 +126,20 @@ package memkv
 //@   nosafety
 //@   requires b != nil && b.store != nil
 //@   modifies inferred:(*batch).asyncRemove$1$1 ghost.sget ghost.skl_writes
+
+// ---- the iterator: a snapshot buffered at creation, handed out in order ----
+//@ func (*iter).Next(ctx) (err)
+//@   props C11 C12
+//@   requires it != nil && it.idx >= -1 && it.idx < 0x4000000000000000
+//@   modifies iter.idx
+//@   ensures [one-step] it.idx == old(it.idx)+1
+//@   ensures [end-exactly-when-the-buffer-is-used-up] (err == nil) == (it.idx < len(it.buf)) && (err != nil ==> err == io.EOF)
+
+// (that inRange compares the element's key with the end bound is not stated: the key comes out of the
+// third-party list as an interface value)
+// the end bound is exclusive in the direction of travel
+//@ func (*iter).inRange(elem) (result)
+//@   props C11 C12
+//@   nosafety
+//@   requires it != nil
+//@   ensures [nothing-past-the-list] elem == nil ==> !result
